@@ -254,6 +254,32 @@ func rewriteFile(path string, r rule) ([]byte, error) {
 				Names: []*ast.Ident{ast.NewIdent("_")}, Values: []ast.Expr{&ast.SelectorExpr{X: ast.NewIdent(rw.timeName), Sel: ast.NewIdent("Second")}}}}})
 		}
 	}
+	// context.WithTimeout / WithDeadline arm real timers: under rule.Time they go through vclock
+	if r.Time {
+		ctxName := ""
+		for _, im := range f.Imports {
+			if p, _ := strconv.Unquote(im.Path.Value); p == "context" {
+				ctxName = "context"
+				if im.Name != nil {
+					ctxName = im.Name.Name
+				}
+			}
+		}
+		if ctxName != "" {
+			ast.Inspect(f, func(n ast.Node) bool {
+				se, ok := n.(*ast.SelectorExpr)
+				if !ok {
+					return true
+				}
+				id, ok := se.X.(*ast.Ident)
+				if ok && id.Name == ctxName && id.Obj == nil && (se.Sel.Name == "WithTimeout" || se.Sel.Name == "WithDeadline") {
+					id.Name = "vclock"
+					rw.need["vclock"] = true
+				}
+				return true
+			})
+		}
+	}
 	// statement-level rewrites
 	if r.Go || r.Chan || len(rw.access) > 0 {
 		for _, d := range f.Decls {
